@@ -220,6 +220,9 @@ def run(cx, rep):
     # ---------------------------------------------------------------- C16.4
     rep.rule("C16.4", "schema printing keeps no state on the validator instances (it is a function of the type and the context)")
     instance_state_rule(mod, spc, rep, "C16.4")
+    # ---------------------------------------------------------------- C16.7
+    rep.rule("C16.7", "a structural hash taken while printing schemas starts from a fresh hash context")
+    fresh_hash_context_rule(mod, spc, rep, "C16.7")
     # ---------------------------------------------------------------- C16.3
     rep.rule("C16.6", "every path that stores the definition of a named type consults the schema override")
     override_consistency_rule(mod, spc, storers, rep, "C16.6")
@@ -358,3 +361,38 @@ def instance_state_rule(mod, spc, rep, rid):
                            mod.loc(n))
     rep.ob(rid, "scan", True, sample={"schema_reachable_methods_scanned": n_m})
     rep.floor(rid, "schema-reachable methods", n_m, 22)
+
+
+
+def fresh_hash_context_rule(mod, spc, rep, rid):
+    """The names of synthetic definitions contain a structural hash of the union.  hash() cuts recursion through its
+    context (`seen`), so the value it returns for a type depends on what that context already holds; a context (or a
+    memo inside it) that lives as long as the printing context makes the name depend on which parser was printed
+    first.  Decided: every `<x>.hash(<ctx>)` in a method reached from schema() - and in the printing context itself -
+    is handed an object literal built at the call (no stored or shared context)."""
+    n = 0
+    scopes = []
+    for cname, c in sorted(mod.classes.items()):
+        if c is spc:
+            scopes += [(cname, mn, m["function"]) for mn, m in c.methods.items() if m["function"].get("body") is not None]
+        elif "schema" in c.methods:
+            scopes += [(cname, mn, c.methods[mn]["function"]) for mn in sorted(schema_reachable_methods(c))]
+    for cname, mname, fn in scopes:
+        if mname in ("hash", "hash256"):
+            continue      # the hash recursion itself hands its own context on
+        al = ts_common.local_aliases(fn)
+        for x in walk(fn):
+            if x["type"] != "CallExpression":
+                continue
+            mc = method_call(x)
+            if not mc or mc[1] != "hash" or len(mc[2]) != 1:
+                continue
+            n += 1
+            a = unparen(mc[2][0])
+            if a.get("type") == "Identifier" and a["value"] in al:
+                a = unparen(al[a["value"]])
+            fresh = a.get("type") == "ObjectExpression"
+            rep.ob(rid, "%s.%s/hash-context" % (cname, mname), fresh,
+                   "%s.%s computes a structural hash with the context `%s`, which is not created at the call: what hash() returns for a recursive type depends on the names already in that context (and on any memo it carries), so the synthetic definition names - and with them the exported definitions - depend on the order in which parsers were printed" % (cname, mname, s(mc[2][0])[:60]),
+                   mod.loc(x), sample={"site": "%s.%s" % (cname, mname), "context": "fresh object literal" if fresh else s(mc[2][0])[:60]})
+    rep.floor(rid, "hash() calls reached from schema printing", n, 1)
